@@ -35,7 +35,7 @@ impl Gen {
                 if t.contains("  let l") || t.contains("build(") {
                     v.push("boxed_value_created_per_dsp_call".to_string());
                 }
-                if t.contains("| | sum(") {
+                if t.contains("| | sum(") || t.contains("let f = |v|") || t.contains("apply(|v|") {
                     v.push("closure_created_per_dsp_call".to_string());
                 }
                 v
@@ -1084,6 +1084,30 @@ pub fn fb_decode(idx: u64, k: u32) -> Option<Gen> {
     }
     src.push_str(&format!("fn dsp(x: float) -> float {{\n{body}  {ret}\n}}\n"));
     Some(Gen { prog: Prog::default(), family: "FB", inputs: 1, ops, ft: None, text: Some(src) })
+}
+
+// ================================================================== FU: closures in unit-returning / value-returning / task frames
+
+pub fn fu_count() -> u64 {
+    9
+}
+pub fn fu_decode(idx: u64) -> Option<Gen> {
+    let (frame, usage) = (idx / 3, idx % 3);
+    let (use_expr, use_name) = match usage {
+        0 => ("(|v| v + a)(g)".to_string(), "lambda applied on the spot"),
+        1 => ("{\n    let f = |v| v + a\n    f(g)\n  }".to_string(), "let-bound lambda then called"),
+        _ => ("apply(|v| v + a, g)".to_string(), "lambda passed to a higher-order function"),
+    };
+    let apply = "fn apply(f, v) {\n  f(v)\n}\n";
+    let (src, frame_name) = match frame {
+        0 => (format!("{apply}let g = 0.0\nfn bump(a) {{\n  g = {use_expr}\n}}\nfn dsp(x) {{\n  bump(1.0)\n  g\n}}\n"), "unit-returning function called from dsp"),
+        1 => (format!("{apply}let g = 0.0\nfn bump(a) {{\n  g = {use_expr}\n  g\n}}\nfn dsp(x) {{\n  bump(1.0)\n}}\n"), "value-returning function called from dsp"),
+        _ => (
+            format!("{apply}let g = 0.0\nfn start() {{\n  let a = 1.0\n  letrec tick = | | {{\n    g = {use_expr}\n    tick@(now + 1.0)\n  }}\n  tick@1.0\n}}\nlet _ = start()\nfn dsp(x) {{\n  g\n}}\n"),
+            "self-rescheduling letrec task",
+        ),
+    };
+    Some(Gen { prog: Prog::default(), family: "FU", inputs: 1, ops: vec![frame_name.to_string(), use_name.to_string()], ft: None, text: Some(src) })
 }
 
 // ================================================================== structural features (tags)
